@@ -367,10 +367,42 @@ def do_check(pid, tier, seed):
             model_runs[-1]["replayed_behaviours"] = js["behaviours"]
             model_runs[-1]["replayed_steps"] = js["steps"]
             if p.returncode == 1:
-                violations.append((fp, "implementation leaves a behaviour generated from the specification: " +
-                                   [x for x in p.stdout.splitlines() if x.startswith("TLCREPLAY")][0][:300]))
-            elif p.returncode != 0:
-                raise ToolError("tlcreplay failed: " + p.stdout[-500:])
+                # judge the failing behaviours like any other recorded behaviour: re-execute them
+                # with full logging and let the trace specification attribute the divergence
+                rp = os.path.join(wd, "tlcreplay-%s.replay.ndjson" % m["cfg"])
+                with open(fp) as f, open(rp, "w") as o:
+                    for k, ln in enumerate(f):
+                        if k >= 3000:
+                            break
+                        b = json.loads(ln)
+                        o.write(json.dumps({"ev": "ep", "id": k + 1, "drv": "tlcreplay"}) + "\n")
+                        o.write(json.dumps({"ev": "new", "slot": 1, "cols": b["init"][0], "rows": b["init"][1], "lim": b["init"][2]}) + "\n")
+                        for op in b["ops"]:
+                            if op["k"] == "fs":
+                                o.write(json.dumps({"ev": "fs", "slot": 1, "s": op["s"], "consumed": True}) + "\n")
+                            else:
+                                o.write(json.dumps({"ev": "rs", "slot": 1, "cols": op["c"], "rows": op["r"], "consumed": True}) + "\n")
+                tr = os.path.join(wd, "tlcreplay-%s.trace.ndjson" % m["cfg"])
+                subprocess.run([HARNESS, "replay", rp, "--out", tr], stdout=subprocess.PIPE, stderr=subprocess.STDOUT, text=True, timeout=300)
+                rc2, out2, _ = run_tlc(os.path.join(SPEC, "Trace.cfg"), os.path.join(SPEC, "Trace.tla"), 1, tr + ".meta", {"TRACE": tr}, 900)
+                res2 = parse_trace_output(out2)
+                if res2["accepted"] is None:
+                    raise ToolError("validation of failing behaviours did not complete: %s" % (res2["stuck"] or res2["error"]))
+                viol2, kn2, fo2 = classify(pid, res2, known)
+                foreign += fo2
+                model_runs[-1]["replay_mismatches"] = js["mismatches"]
+                seen = set()
+                for (l, text) in sorted(viol2):
+                    ep = episode_slice(tr, l)
+                    if ep and ep[0] in seen:
+                        continue
+                    seen.add(ep[0])
+                    nfail += 1
+                    rpf = os.path.join(wd, "fail-%d.ndjson" % nfail)
+                    with open(rpf, "w") as f:
+                        f.write("\n".join(ep) + "\n")
+                        f.write(json.dumps({"ev": "verdict", "property": pid, "event": len(ep), "text": text, "source": "behaviour generated by TLC from " + m["cfg"]}) + "\n")
+                    violations.append((rpf, "TLC-generated behaviour: " + text))
             if n == 0:
                 raise ToolError("model %s emitted no behaviours" % m["cfg"])
 
